@@ -936,9 +936,13 @@ def decode(data, offset=0, size=None):
     if size < 2:
         raise DecodeError("less than two header bytes can't make a valid pdu")
 
-    ptype = (struct.unpack_from('>H', data, offset)[0] >> 6) & 0b1111
+    # Decode the PDU from its own octets only: no TLV or length field of
+    # an aggregated PDU may reach into the octets that follow it.
+    data = data[offset:offset+size]
+
+    ptype = (struct.unpack_from('>H', data)[0] >> 6) & 0b1111
     pdu_type = pdu_type_map.get(ptype, UnknownProtocolDataUnit)
-    return pdu_type.decode(data, offset, size)
+    return pdu_type.decode(data, 0, size)
 
 
 def encode(pdu):
